@@ -685,6 +685,7 @@ def run_cases(ctx, cases, stream, use_driver=True):
                 ex = False
                 if "ok" in real["prox"] and seg is not None:
                     ex = pow_exact(real["prox"]["ok"], seg[2])
+                    ctx.count("cell:" + ("pow-exact" if ex else "inexact"))
                 for k in ("prox", "length", "volume", "area"):
                     ctx.corr_evals += 1
                     why = same(real[k], model.get(k, {"err": ["missing", ""]}), ex)
